@@ -38,7 +38,7 @@ EXPLANATION = ("Exhaustive sub-spaces: every set of <=2 (quick) / <=3 (thorough)
                "label triple and flag combination per network); every text of length <=4 (quick) / <=5 (thorough) over the alphabet "
                "{A,2,0,space,+,*,_} through RXNSide.from_str; every bipartite export flag combination on a fixed set of networks. "
                "Everything else (random networks <=8 species / 10 reactions, fuzzed reaction lines, adversarial labels) is seeded random. "
-               "Theorems: see coq/props/C16.v (round trips proved for all networks satisfying the stated boolean preconditions).")
+               "Theorems: see coq/props/C16.v (round trips proved for all networks satisfying the stated decidable preconditions).")
 TRUSTED_BASE = [
     "Coq 8.16.1 kernel + vm_compute (no native_compute)",
     "std++ 1.8.0 gmap/gset/pretty (axiom-free)",
@@ -56,7 +56,11 @@ ASSUMPTIONS = [
     "species_graph_to_hypergraph picks next(iter(rules)) from a Python set: modelled as an arbitrary choice function, "
     "observed only when the merged rule set is a singleton (membership checked otherwise)",
 ]
-TESTED_NOT_PROVED = []
+TESTED_NOT_PROVED = [
+    "behaviour of the flag combinations that do not export ids or coefficients, of RXNSide.from_str / add_rxn_from_str / parse_rxns on "
+    "arbitrary (non-printed) text, and of all converters outside the theorem preconditions: model = implementation on every generated case",
+    "rule names after a species-graph round trip (membership in the merged rule set is compared, not proved)",
+]
 
 ERR = {"KeyError": 1, "ValueError": 2, "IndexError": 4}
 KEY_LABEL_DOMAIN = "C16:strings-label-domain"        # known_findings.d/C16.json
@@ -635,14 +639,24 @@ def gen_cases(tier, rng):
     return cases
 
 
-LEVEL_TEXT = ("Machine-checked proof (Coq) over an executable model of the three view converters: for every network satisfying the "
-              "store invariant, bipartite export (string or integer node ids, any prefix pair without a species/reaction name clash, "
-              "every flag combination that exports ids and coefficients) followed by import returns the same id -> (rule, reactants, "
-              "products) map and the molecule labels of the occurring species; printing as reaction strings and parsing back returns "
-              "the same multiset of (rule, reactants, products) for labels [A-Za-z][A-Za-z0-9_]* and blank-free rules, built on "
-              "from_str (fmt s) = s; species-graph collapse and reconstruction returns ids and both coefficient maps for two-sided "
-              "networks.  The model is tied to the Python code by comparing, on every run, the intermediate view (all nodes, arcs and "
-              "attributes, or the printed lines) and the reconstructed network for thousands of generated networks and flag combinations.")
-LEVEL_NOTE = ("Trusted: Coq kernel + vm_compute, std++; the hand-written model and the harness encoders; networkx DiGraph attribute "
-              "semantics; CPython str/re/int on ASCII text. Modelled, not verified: nothing is left to tests only; imports of graphs "
-              "without id attributes (hash-synthesised ids) are outside the model and not claimed by the property.")
+LEVEL_TEXT = ("Machine-checked proof (Coq, axiom-free) over an executable model of the three view converters, for ALL networks "
+              "satisfying a decidable well-formedness predicate wf16 that the store invariant of C15 implies (C16_inv_wf): "
+              "(1) C16_bipartite_roundtrip: bipartite export with edge ids and coefficients (string node ids with any prefix pair that "
+              "causes no species/reaction name clash - in particular the defaults, C16_default_prefixes_ok - or integer node ids; all "
+              "other flags free) followed by import with any import flags raises no error and returns the same id -> (rule, "
+              "reactants, products) map, the occurring species, and exactly their molecule labels; "
+              "(2) C16_strings_roundtrip (+ C16_side_roundtrip: RXNSide.from_str inverts the side printer, decimal coefficients of any "
+              "size): printing with the rule suffix and parsing back returns the same multiset of (rule, reactants, products) for "
+              "labels [A-Za-z][A-Za-z0-9_]* and blank-free rules; C16_label_domain_refuted shows the label restriction is necessary "
+              "(known finding); (3) C16_species_graph_roundtrip: for every network whose reactions all have reactants and products, "
+              "collapse + reconstruction returns the same ids with the same reactant and product coefficient maps, including when "
+              "several reactions share a species pair. The model is tied to the Python code by comparing, on every run, the "
+              "intermediate view (all nodes, arcs and attributes, or the printed lines) and the reconstructed network for thousands of "
+              "generated networks and flag combinations (exhaustive small scope + random + adversarial + fuzzed parser input).")
+LEVEL_NOTE = ("Trusted: Coq kernel + vm_compute, std++; the hand-written model (C16_Model.v on C15_Model.v) and the harness encoders; "
+              "networkx DiGraph attribute-merge semantics; CPython str/re/int on ASCII text. Not claimed: rules after a species-graph "
+              "round trip (merged rule sets, arbitrary pick), insertion order and labels of reaction-less kept species after the graph "
+              "round trips, imports of graphs without id attributes (ids synthesised from hash(): outside the model). Two known "
+              "findings outside the stated preconditions are reported by key (label domain of the text format; un-prefixed node-name clash).")
+TECHNIQUE = "Coq proof over a Gallina model (std++ gmap/gset) + per-run correspondence (vm_compute digest vs implementation) + Python oracle"
+DESIGN_REF = "DESIGN.md section 5 C16, Appendix A.3; notes/C16.md"
